@@ -3,3 +3,6 @@ import DefconModel.Util.AL
 import DefconModel.Notify
 import DefconModel.AllDrivers
 import DefconModel.Props.C04
+import DefconModel.NameSort
+import DefconModel.Gen.SortTables
+import DefconModel.Drivers.NameSort
